@@ -101,9 +101,10 @@ class FaultSched(Scheduling):
     """Fault kinds F2 (adversarial proposals) and F3 (stalled rounds) around a
     shipped scheduling algorithm."""
 
-    def __init__(self, inner, adv=None, stalls=None, explicit=None, norelease=False):
+    def __init__(self, inner, adv=None, stalls=None, explicit=None, norelease=False, ontime=False):
         super().__init__()
         self.inner = inner
+        self.ontime = ontime
         self.norelease = norelease      # a user algorithm that leaves the release of its reservation to the Scheduler
         self.adv = adv
         self.rng = random.Random('adv/%s' % adv['seed']) if adv else None
@@ -141,6 +142,11 @@ class FaultSched(Scheduling):
         else:
             alloc, status, pool = self.inner.run(cluster, clock, workflow_plan,
                                                  existing_schedule, task_pool)
+        if self.ontime:
+            from topsim.core.planner import WorkflowStatus as _WS
+            if status is _WS.SCHEDULED:
+                status = _WS.ON_TIME        # a documented member of the status enum no shipped algorithm uses
+                self.fired['ontime'] += 1
         if not self.adv:
             return alloc, status, pool
         r = cluster._resources
@@ -213,7 +219,7 @@ def _content_dir(sc, d):
     unchanged* files, as an experiment loop over one configuration file would do; older ones are pruned."""
     import hashlib
     import shutil
-    key = json.dumps({k: sc.get(k) for k in ('unit', 'explicit_unit', 'machines', 'machine_order', 'arrays', 'max_ingest',
+    key = json.dumps({k: sc.get(k) for k in ('unit', 'explicit_unit', 'machines', 'machine_order', 'cluster_header', 'arrays', 'max_ingest',
                                              'hot', 'cold', 'obs', 'wfs')}, sort_keys=True)
     sub = os.path.join(d, 'cfg-' + hashlib.sha1(key.encode()).hexdigest()[:16])
     if os.path.isdir(sub) and os.path.exists(os.path.join(sub, 'cfg.json')):
@@ -258,7 +264,7 @@ def write_files(sc, d):
     cfg = {'instrument': {'telescope': {'total_arrays': sc['arrays'],
                                         'max_ingest_resources': sc['max_ingest'],
                                         'pipelines': pipelines, 'observations': obs}},
-           'cluster': {'header': {}, 'system': {'resources': resources,
+           'cluster': {'header': sc.get('cluster_header') or {}, 'system': {'resources': resources,
                                                 'system_bandwidth': 1.0}},
            'buffer': {'hot': sc['hot'], 'cold': sc['cold']}}
     if sc['unit'] != 'seconds' or sc.get('explicit_unit'):
@@ -315,8 +321,9 @@ def build(sc, d, env, monitor=None):
     else:
         raise ValueError(p)
     fs = None
-    if f.get('adv') or f.get('stalls') or f.get('norelease'):
-        fs = FaultSched(alg, f.get('adv'), f.get('stalls'), norelease=bool(f.get('norelease')) and p == 'batch')
+    if f.get('adv') or f.get('stalls') or f.get('norelease') or f.get('ontime_status'):
+        fs = FaultSched(alg, f.get('adv'), f.get('stalls'), norelease=bool(f.get('norelease')) and p == 'batch',
+                        ontime=bool(f.get('ontime_status')))
         alg = fs
     sim = Simulation(env, cfg, Telescope, planning_model=plan,
                      planning_algorithm=plan.algorithm, scheduling=alg,
@@ -458,7 +465,7 @@ def run_scenario(sc, d, oracle_cls=None, pauses=None, monitor=None, budget=None,
         if env.perm_changed:
             res.faults['F4'] += env.perm_changed
         if fs is not None:
-            res.faults.update({('F3' if k == 'F3' else 'F9:norelease' if k == 'norelease' else 'F2:' + k): v for k, v in fs.fired.items()})
+            res.faults.update({('F3' if k == 'F3' else 'F9:' + k if k in ('norelease', 'ontime') else 'F2:' + k): v for k, v in fs.fired.items()})
         try:
             orc.finish()
         except Exception as e:      # oracle crash = harness error, never a violation
